@@ -347,6 +347,10 @@ func (w *World) DoProp(st *Step) bool {
 			if p = w.addrPtr(src); p == nil {
 				return true
 			}
+			if b, ok := src.item.(interface{ base() *simBase }); ok && st.B == 1 {
+				b.base().text += "~u"
+				w.probe("cell_updated_after_its_item_changed")
+			}
 			p.Update() // re-reads the item; must not touch properties
 			w.probe("cell_updated")
 			return true
